@@ -47,6 +47,7 @@ class PyFacts(object):
   def __init__(self, repo):
     self.m = repo.by_name('parse')
     self.cache = {}
+    self.auto_helpers = set()
 
   def raw(self, fi):
     if fi.qualname in self.cache:
@@ -104,8 +105,8 @@ class PyFacts(object):
       out['diag'] |= r['diag']
       out['rejects'] += r['rejects']
       out['calls'] += r['calls']
-    for h in PY_HELPERS:
-      if h in out['calls'] and h in self.m.funcs:
+    for h in sorted(PY_HELPERS | self.auto_helpers):
+      if h in out['calls'] and h in self.m.funcs and h != name:
         r = self.raw(self.m.funcs[h])
         out['strs'] |= r['strs']
         out['diag'] |= r['diag']
@@ -116,10 +117,36 @@ class PyFacts(object):
     return out
 
 
-def cpp_facts(cpp, names):
+def cpp_helpers(cpp, py_names):
+  """Free C++ functions without a Python twin: small helpers whose facts are
+  folded into their callers (so that moving a test into a helper is not a
+  difference, and what the helper adds is attributed to every caller)."""
+  mapped = {x for v in NAME_MAP.values() for x in v}
+  out = set()
+  for n in cpp.funcs:
+    if '::' in n or n in py_names or n in mapped:
+      continue
+    if n in ('ParseFile', 'SpanFromJson', 'SpanRefJson', 'SpanTextFromJson', 'HasKey',
+             # C++ counterpart of Python's ast.literal_eval (standard library)
+             'ParsePythonStyleStringLiteral'):
+      continue
+    out.add(n)
+  return out
+
+
+def cpp_facts(cpp, names, helpers=(), _depth=0):
   strs, diag, chars, rejects, calls = set(), set(), set(), 0, []
-  for n in names:
+  todo = list(names)
+  seen = set()
+  while todo:
+    n = todo.pop(0)
+    if n in seen or n not in cpp.funcs:
+      continue
+    seen.add(n)
     f = cpp.func(n).facts()
+    for c in f['calls']:
+      if c in helpers and c not in seen:
+        todo.append(c)
     for v, thr, _ in f['strings']:
       (diag if thr else strs).add(v)
     for v, thr in f['chars']:
@@ -127,6 +154,24 @@ def cpp_facts(cpp, names):
     rejects += f['throws']
     calls += f['calls']
   return dict(strs=strs, diag=diag, rejects=rejects, calls=calls)
+
+
+def cpp_ctype_class(cpp, fn, helpers):
+  """(characters admitted through ctype predicates / ranges, other chars)
+  of a C++ function with its helpers folded in."""
+  f = cpp_facts(cpp, [fn], helpers)
+  out = set()
+  for c in f['calls']:
+    if c in CTYPE:
+      out |= CTYPE[c]
+  chars = {v for v in f['strs'] if len(v) == 1}
+  for lo, hi, full in (('a', 'z', pystring.ascii_lowercase),
+                       ('A', 'Z', pystring.ascii_uppercase),
+                       ('0', '9', pystring.digits)):
+    if lo in chars and hi in chars:
+      out |= set(full)
+      chars -= {lo, hi}
+  return out, chars
 
 
 def norm_syms(ss):
@@ -180,6 +225,20 @@ def run(chk):
   cpp = CppModel(repo.root)
   py = PyFacts(repo)
   chk.extra['cpp_functions'] = len(cpp.funcs)
+  py_top = {q for q, f in repo.by_name('parse').funcs.items() if f.parent is None and f.cls is None}
+  helpers = cpp_helpers(cpp, py_top)
+  # Python top-level functions without a C++ twin that are called by other
+  # parser functions are helpers too (folded into their callers)
+  mapped_py = set(NAME_MAP)
+  for q in sorted(py_top):
+    if q not in cpp.funcs and q not in mapped_py and q not in PY_ONLY:
+      callers = [g for g, f in repo.by_name('parse').funcs.items()
+                 if g != q and any(isinstance(c, ast.Call) and call_tail(c) == q
+                                   for c in ast.walk(f.node))]
+      if callers:
+        py.auto_helpers.add(q)
+  chk.extra['cpp_helpers_folded'] = sorted(helpers)
+  chk.extra['py_helpers_folded'] = sorted(PY_HELPERS | py.auto_helpers)
   chk.assume('the C++ facts come from clang -fsyntax-only (resolved AST); names of the '
              'two ports correspond (a missing twin is an analysis error)')
   m = repo.by_name('parse')
@@ -264,7 +323,7 @@ def run(chk):
   for fn in ('ActuallyParseExpression', 'ParseProposition', 'ParseLiteral'):
     keep = lambda c: c.startswith('Parse') and c != fn
     pc = chain(py.facts(fn)['calls'], keep)
-    cc = chain(cpp_facts(cpp, NAME_MAP.get(fn, [fn]))['calls'], keep)
+    cc = chain(cpp_facts(cpp, NAME_MAP.get(fn, [fn]), helpers)['calls'], keep)
     chk.ob('C06-R2', pc == cc, 'parser_cpp/logica_parse.cpp:%s' % fn,
            '%s tries %d alternatives in the Python order' % (fn, len(pc)),
            'Python order %s, C++ order %s: the first matching alternative '
@@ -298,7 +357,7 @@ def run(chk):
   top = sorted(q for q, f in m.funcs.items() if f.parent is None and f.cls is None)
   pairs = []
   for q in top:
-    if q in PY_HELPERS or q in PY_ONLY:
+    if q in PY_HELPERS or q in PY_ONLY or q in py.auto_helpers:
       continue
     cn = NAME_MAP.get(q, [q])
     missing = [c for c in cn if c not in cpp.funcs]
@@ -315,7 +374,7 @@ def run(chk):
                     'ParseSubscript', 'Traverse', 'ParseNumber'}
   for q, cn in pairs:
     pf_ = py.facts(q)
-    cf_ = cpp_facts(cpp, cn)
+    cf_ = cpp_facts(cpp, cn, helpers)
     ps, pd = norm_syms(pf_['strs']), norm_syms(pf_['diag'])
     cs, cd = norm_syms(cf_['strs']), norm_syms(cf_['diag'])
     cs = {_utf8(s) for s in cs}
@@ -340,7 +399,7 @@ def run(chk):
            'characters, predicate literal characters, call-name characters, '
            'bracket pairs, scanner state symbols', min_instances=5)
   vcs = char_class_py(m.module_assign('VARIABLE_CHARS_SET'))
-  cset, crest = char_class_cpp(cpp, 'IsVariableChars')
+  cset, crest = cpp_ctype_class(cpp, 'IsVariableChars', helpers)
   chk.ob('C06-R4', vcs == cset | crest, 'parser_cpp/logica_parse.cpp:IsVariableChars',
          'variable characters agree (%d)' % len(vcs),
          'Python allows %s, C++ %s' % (''.join(sorted(vcs - (cset | crest))),
@@ -363,7 +422,7 @@ def run(chk):
       extra = char_class_py(x.value)
   if good is None:
     raise AnalysisError('ParseGenericCall: good_chars not found')
-  cset, crest = char_class_cpp(cpp, 'ParseGenericCall')
+  cset, crest = cpp_ctype_class(cpp, 'ParseGenericCall', helpers)
   cf_ = cpp.func('ParseGenericCall').facts()
   class_strs = [v for v, thr, in_for in cf_['strings'] if not thr and in_for]
   cpp_good = set(cset)
@@ -388,7 +447,7 @@ def run(chk):
   tr = py.facts('Traverse')
   py_syms = {s for s in tr['strs'] if s not in SCANNER_STATUS} | \
       {k for k, v in py_pairs} | {v for k, v in py_pairs}
-  ct = cpp_facts(cpp, NAME_MAP['Traverse'])
+  ct = cpp_facts(cpp, NAME_MAP['Traverse'], helpers)
   cpp_syms = {s for s in ct['strs']} - CPP_ONLY_CHARS
   chk.ob('C06-R4', py_syms == cpp_syms, 'parser_cpp/logica_parse.cpp:Traverser::Next',
          'scanner state symbols agree (%s)' % ' '.join(sorted(repr(s) for s in py_syms)),
@@ -404,12 +463,7 @@ def run(chk):
         except AnalysisError:
           pass
     big = max(sets, key=len) if sets else None
-    cset, crest = char_class_cpp(cpp, fn)
-    cf2 = cpp.func(fn).facts()
-    called = set(cf2['calls'])
-    if 'IsVariableChars' in called:
-      c2, r2 = char_class_cpp(cpp, 'IsVariableChars')
-      cset |= c2 | r2
+    cset, crest = cpp_ctype_class(cpp, fn, helpers | {'IsVariableChars'})
     if big is None:
       continue
     cpp_cls = cset | {c for c in crest if c in '_'}
@@ -426,7 +480,7 @@ def run(chk):
            min_instances=50)
   for q, cn in pairs:
     pr = py.facts(q)['rejects']
-    cr = cpp_facts(cpp, cn)['rejects']
+    cr = cpp_facts(cpp, cn, helpers)['rejects']
     chk.ob('C06-R6', (pr > 0) == (cr > 0), 'parser_cpp/logica_parse.cpp:%s' % cn[0],
            '%s: %s in both parsers' % (q, 'can reject' if pr else 'never rejects'),
            'Python has %d raise/assert sites, C++ %d throw sites: one parser '
